@@ -336,7 +336,7 @@ theorem ofCyChain_wf (q : Cy.Query) (s : C01.Ch.Query) (h3 : C01.ofCyChain q = s
   · split at h3
     · cases h3
     · simp only [bind, Option.bind_eq_some_iff, pure] at h3
-      obtain ⟨_, _, _, _, h3⟩ := h3
+      obtain ⟨_, _, _, _, _, _, h3⟩ := h3
       split at h3
       · rename_i hw; cases h3; exact hw
       · cases h3
@@ -488,8 +488,10 @@ theorem tr4_cases (fo fu : C01.S2.Query → Bool) (co cu : C01.Ch.Query → Bool
             | nil => simp [hh] at hso
             | cons h0 hs =>
               simp only [hh] at hso hsu
-              cases hka : C01.S2.kindIds? km s.akinds <;> cases hk0 : C01.Ch.hopKinds km h0 <;> cases hr : C01.Ch.stepCtes km 1 hs <;>
-                simp [hka, hk0, hr, bind, Option.bind] at hso hsu
+              cases hka : C01.S2.kindIds? km s.akinds <;> cases hk0 : C01.Ch.hopKinds km h0 <;>
+                cases hpa : C01.S2.predsE km "n0" false (s.preds (.node 0)) <;> cases hsp : C01.Ch.stepPreds km s 0 <;>
+                cases hr : C01.Ch.stepCtes km s 1 hs <;>
+                simp [hka, hk0, hpa, hsp, hr, bind, Option.bind] at hso hsu
           | some st' =>
             rw [hsu] at hu
             simp only [Option.map_some] at hu
